@@ -397,11 +397,11 @@ func (obj *Package) Remove(name string) (removed bool) {
 	}
 	name = strings.ToLower(name)
 	obj.mu.Lock()
-	if _, has := obj.vars[name]; has {
+	if vv, has := obj.vars[name]; has {
 		delete(obj.vars, name)
 		removed = true
 		for _, u := range obj.Users {
-			if vv := u.vars[name]; vv != nil && vv.Pkg == obj {
+			if u.vars[name] == vv && vv.Pkg == obj {
 				delete(u.vars, name)
 			}
 		}
@@ -500,6 +500,7 @@ func (obj *Package) Export(name string) {
 		} else {
 			vv := newUnboundVar(name)
 			vv.Export = true
+			vv.Pkg = obj
 			obj.vars[name] = vv
 		}
 	}
